@@ -158,7 +158,7 @@ class C12(object):
                     "eager_sleep": rnd.random() < 0.35}
         d = {"entry": "labelimage-history", "nfr": nfr, "ns": ns, "nf": nf, "wseed": rnd.getrandbits(48),
              "threshold": rnd.choice([0.0, 5.0, 100.0, -5000.0]), "omega0": rnd.choice([0.0, -10.0, 90.5]), "ostep": ostep,
-             "write2d": rnd.random() < 0.4, "cfg": cfg}
+             "write2d": rnd.random() < 0.4, "cfg": cfg, "reuse_buffer": rnd.random() < 0.3}
         if not big and rnd.random() < 0.2:
             # a second labelimage (another threshold / detector, as the threaded peaksearcher runs them) whose GIL-free
             # kernel calls overlap in time with those of the first
@@ -207,8 +207,13 @@ class C12(object):
             self.li.cImageD11 = RecordingKernels(real_c, callsA)
             with contextlib.redirect_stdout(io.StringIO()):
                 lab = self.li.labelimage((ns, nf), fileout=out, sptfile=spt)
+                fbuf = np.zeros((ns, nf), np.float64)
                 for k in range(nfr):
-                    lab.peaksearch(vol[k], thr, float(omegas[k]))
+                    if desc.get("reuse_buffer"):
+                        fbuf[:] = vol[k]            # every frame is read into the same (float64) array
+                        lab.peaksearch(fbuf, thr, float(omegas[k]))
+                    else:
+                        lab.peaksearch(vol[k], thr, float(omegas[k]))
                     if desc["write2d"] and lab.npk > 0:
                         lab.output2dpeaks(spt)
                     lab.mergelast()
